@@ -35,6 +35,7 @@ fn families(run: &Run) -> Vec<SeriesFam> {
             w_lo: 1,
             w_extra: 2,
         min_len: 0,
+        scales: vec![1.0 / 8192.0, 1024.0],
             cfg_ok: cfg_all,
             classify,
         },
@@ -50,6 +51,7 @@ fn families(run: &Run) -> Vec<SeriesFam> {
             w_lo: 1,
             w_extra: 2,
         min_len: 0,
+        scales: vec![1.0 / 8192.0, 1024.0],
             cfg_ok: cfg_all,
             classify,
         },
@@ -80,6 +82,7 @@ fn families(run: &Run) -> Vec<SeriesFam> {
             w_lo: 1,
             w_extra: 2,
         min_len: 0,
+        scales: vec![],
             cfg_ok: cfg_all,
             classify,
         },
@@ -104,6 +107,7 @@ fn families(run: &Run) -> Vec<SeriesFam> {
             w_lo: 1,
             w_extra: 2,
         min_len: 0,
+        scales: vec![],
             cfg_ok: cfg_all,
             classify,
         },
@@ -199,6 +203,7 @@ fn clone_shallow(f: &SeriesFam) -> SeriesFam {
         w_lo: f.w_lo,
         w_extra: f.w_extra,
         min_len: f.min_len,
+        scales: f.scales.clone(),
         cfg_ok: f.cfg_ok,
         classify: f.classify,
     }
